@@ -134,8 +134,56 @@ def csv_anomaly_lines():
     return lines
 
 
+COLOR_IMPL = r"""
+import sys, json, io
+from rbql import rbql_csv
+out = []
+for delim, policy, table in json.loads(sys.stdin.read()):
+    st = io.StringIO()
+    w = rbql_csv.CSVWriter(st, False, None, delim, policy, colorize_output=True)
+    for r in table:
+        w.write(list(r))
+    w.finish()
+    out.append([('separator' in x) for x in w.get_warnings()].count(True))
+print(json.dumps(out))
+"""
+
+
+def color_writer_check(res):
+    """the colourised writer (terminal output of the command line) checks the separator BEFORE joining: the warning must appear iff some
+    field of SOME record contains the delimiter, wherever that record is (direct oracle; single-character delimiters)"""
+    import itertools
+    import subprocess
+    import common
+    cases = []
+    for delim, policy in ((',', 'simple'), ('\t', 'simple'), (' ', 'whitespace')):
+        bad = 'x' + delim + 'y'
+        for n in (1, 2, 3, 4):
+            for poisoned in itertools.product([False, True], repeat=n):
+                table = [['a%d' % i, bad if p else 'ok', 'z'] for i, p in enumerate(poisoned)]
+                cases.append((delim, policy, table, any(poisoned)))
+    r = subprocess.run([common.PY, '-W', 'ignore', '-c', COLOR_IMPL], input=json.dumps([c[:3] for c in cases]).encode(), env=common.impl_env(), stdout=subprocess.PIPE, stderr=subprocess.PIPE, timeout=300)
+    try:
+        outs = json.loads(r.stdout.decode().strip().split('\n')[-1])
+    except (ValueError, IndexError):
+        raise RuntimeError('C14 colour driver failed: ' + r.stderr.decode()[-400:])
+    res.evaluations += len(cases)
+    res.exhaustive['colourised simple/whitespace writer: every subset of <= 4 records carrying the delimiter in a field'] = True
+    nbad = 0
+    for (delim, policy, table, want), got in zip(cases, outs):
+        res.nontrivial.add(('color', delim, policy, json.dumps(table)))
+        if (got > 0) != want or got > 1:
+            nbad += 1
+            if nbad <= 3:
+                res.violations.append({'property': 'C14', 'impl': 'py', 'why': 'colourised writer: the separator-in-field warning must appear (once) iff some record carried the delimiter inside a field',
+                                       'delim': delim, 'policy': policy, 'table': table, 'warning_expected': want, 'warnings_reported': got,
+                                       'case_key': 'C14|color|%s|%s|%s' % (delim, policy, json.dumps(table))})
+    res.count('colour_writer_cases', len(cases))
+
+
 def run(res, tier, seed):
     res.rule = RULE
+    color_writer_check(res)
     res.assumptions = ['host exceptions (TypeError text, UnicodeDecodeError) are classified, not modelled']
     cases = poison_cases()
     rnd = random.Random(seed * 9576890 + 14)
